@@ -11,7 +11,7 @@ Text form (one token, for case lines):  pass '/' pass ;  rule ';' rule ;  pre '~
 import struct
 
 OP = dict(PUSH_BYTE=1, PUSH_SHORT=3, NEXT=25, COPY_NEXT=27, PUT_GLYPH8=28, PUT_SUBS8=29, PUT_COPY=30, INSERT=31, DELETE=32, ASSOC=33, CNTXT_ITEM=34, ATTR_SET=35,
-          POP_RET=48, RET_ZERO=49, RET_TRUE=50)
+          POP_RET=48, RET_ZERO=49, RET_TRUE=50, PUSH_SLOT_ATTR=40, EQUAL=19, LESS=21, GTR=22)
 SLAT_ADVX, SLAT_SHIFTX = 0, 20
 
 
@@ -25,8 +25,11 @@ def prog_to_text(prog):
         if a[0] == 'A': return 'A%d' % a[1]
         if a[0] == 'X': return 'X%d' % a[1]
         raise ValueError(a)
-    return '/'.join('%d:' % p.get('maxloop', 5) + ';'.join('%d~%s~%s' % (r['pre'], ','.join('.'.join(map(str, sorted(s))) for s in r['pat']),
-                                                         ','.join('&'.join(act(a) for a in al) if al else '-' for al in r['acts'])) for r in p['rules']) for p in prog)
+    def con(r):
+        c = r.get('con')
+        return '~c%d%s%d' % (c[0], c[1], c[2]) if c else ''
+    return '/'.join('%d:' % p.get('maxloop', 5) + ';'.join('%d~%s~%s%s' % (r['pre'], ','.join('.'.join(map(str, sorted(s))) for s in r['pat']),
+                                                         ','.join('&'.join(act(a) for a in al) if al else '-' for al in r['acts']), con(r)) for r in p['rules']) for p in prog)
 
 
 # ------------------------------------------------------------------ classes
@@ -69,6 +72,16 @@ def compile_action(rule, classes):
         bc += [OP['NEXT']]
     bc += [OP['RET_ZERO']]
     return bytes(bc)
+
+
+def compile_constraint(rule):
+    """con = (item index in the window, 'l' | 'g' | 'e', value): advance.x of that item compared with the value"""
+    c = rule.get('con')
+    if not c:
+        return b''
+    item, op, val = c
+    block = [OP['PUSH_SLOT_ATTR'], SLAT_ADVX, 0, OP['PUSH_SHORT'], (val >> 8) & 255, val & 255, {'l': OP['LESS'], 'g': OP['GTR'], 'e': OP['EQUAL']}[op]]
+    return bytes([OP['CNTXT_ITEM'], (item - rule['pre']) & 255, len(block)] + block + [OP['POP_RET']])
 
 
 # ------------------------------------------------------------------ FSM
@@ -134,7 +147,13 @@ def compile_pass(p, classes, pass_off):
     body += b''.join(struct.pack('>H', len(r['pat'])) for r in rules)           # sort keys
     body += bytes([pre] * n)
     body += struct.pack('>BH', 0, 0)                                              # reserved, pass constraint length
-    body += b''.join(struct.pack('>H', 0) for _ in range(n + 1))                  # no rule constraints
+    cons = [compile_constraint(r) for r in rules]
+    cblock = b'\x00' if any(cons) else b''                                       # offset 0 means "no constraint": keep it unused
+    co = []
+    for c in cons:
+        co.append(len(cblock) if c else 0); cblock += c
+    co.append(len(cblock))
+    body += b''.join(struct.pack('>H', o) for o in co)
     ao, acc = [], 0
     for a in actions:
         ao.append(acc); acc += len(a)
@@ -144,10 +163,10 @@ def compile_pass(p, classes, pass_off):
     body += b'\x00'
     code_off = 40 + len(body)
     hdr = struct.pack('>BBBBHH', 0, p.get('maxloop', 5), max(len(r['pat']) for r in rules), pre, n, 0)
-    hdr += struct.pack('>IIII', pass_off + code_off, pass_off + code_off, pass_off + code_off, 0)
+    hdr += struct.pack('>IIII', pass_off + code_off, pass_off + code_off, pass_off + code_off + len(cblock), 0)
     hdr += struct.pack('>HHHHH', nstates, ntrans, nsucc, ncols, len(ranges)) + struct.pack('>HHH', 0, 0, 0)
     assert len(hdr) == 40
-    return hdr + body + b''.join(actions)
+    return hdr + body + cblock + b''.join(actions)
 
 
 def compile_silf(prog, max_glyph, n_subst=None):
